@@ -281,7 +281,9 @@ func Run(tier string) {
 		runGen(run, "classes2", genCfg("classes", 2, 1, "{0, 47}", `{"st0","st2"}`, seed, 0, "CanonicalAndEmit GoodPathsAccepted"), 16)
 		runGen(run, "free", genCfg("free", 0, 0, "{0}", `{"st0"}`, seed, 4, "CanonicalAndEmit"), 16)
 		runGen(run, "wf", genCfg("wf", 1, 0, "{0}", `{"st0"}`, seed, 0, "CanonicalAndEmit RoundTripInv"), 16)
+		runGen(run, "intro", genCfg("intro", 0, 0, "{0}", `{"st0"}`, seed, 0, "CanonicalAndEmit IntroExact"), 4)
 	} else {
+		runGen(run, "intro", genCfg("intro", 0, 0, "{0}", `{"st0"}`, seed, 0, "CanonicalAndEmit IntroExact"), 4)
 		runGen(run, "classes2", genCfg("classes", 2, 2, "{0, 1, 2, 3, 46, 47}", `{"st0","st1","st2","st3"}`, seed, 0, "CanonicalAndEmit GoodPathsAccepted"), 16)
 		runGen(run, "classes3", genCfg("classes", 3, 1, "{0, 47}", `{"st0","st2"}`, seed, 0, "CanonicalAndEmit GoodPathsAccepted"), 16)
 		runGen(run, "free", genCfg("free", 0, 0, "{0}", `{"st0"}`, seed, 5, "CanonicalAndEmit"), 16)
